@@ -1312,6 +1312,48 @@ Proof.
   unfold select_proofs_to_send in Hsel. rewrite Hsel. eexists. reflexivity.
 Qed.
 
+Lemma decision_of_select : forall su sd m inactive active amount inc r,
+  select_proofs_for_amount_gen su sd m inactive active amount inc = Ok r ->
+  get_proofs_decision_gen su sd m inactive active amount inc = DOffline r \/
+  get_proofs_decision_gen su sd m inactive active amount inc = DSwap.
+Proof.
+  intros su sd m inactive active amount inc r Hr. unfold get_proofs_decision_gen. rewrite Hr.
+  destruct (sum64 r =? add64 amount (fees_if m inc r)); [left|right]; reflexivity.
+Qed.
+
+Lemma swap_plan_of_select : forall su sd m inactive active amount (inc : bool) r,
+  select_proofs_for_amount_gen su sd m inactive active
+    (add64 amount (if inc then fees_for_count (Z.of_nat (length (amount_split amount)) + 1) (m_active_fee m) else 0))
+    true = Ok r ->
+  exists p, swap_to_send_plan_gen su sd m inactive active amount inc = Ok p.
+Proof.
+  intros su sd m inactive active amount inc r Hr. unfold swap_to_send_plan_gen. rewrite Hr.
+  eexists. reflexivity.
+Qed.
+
+Lemma popcount_eq : forall a, popcount a = Z.of_nat (length (amount_split a)).
+Proof. intros a. reflexivity. Qed.
+
+Lemma swap_plan_of_select_inst : forall m active amount (inc : bool) r2,
+  select_proofs_for_amount m [] active
+    (add64 amount (if inc then fees_for_count (popcount amount + 1) (m_active_fee m) else 0)) true = Ok r2 ->
+  exists p, swap_to_send_plan m [] active amount inc = Ok p.
+Proof.
+  intros m active amount inc r2 Hr2. rewrite popcount_eq in Hr2.
+  exact (swap_plan_of_select _ _ _ _ _ _ _ _ Hr2).
+Qed.
+
+Lemma decision_of_select_inst : forall m active amount (inc : bool) r,
+  select_proofs_for_amount m [] active amount inc = Ok r ->
+  get_proofs_decision m [] active amount inc = DOffline r \/ get_proofs_decision m [] active amount inc = DSwap.
+Proof.
+  intros m active amount inc r Hr. unfold select_proofs_for_amount in Hr. unfold get_proofs_decision.
+  exact (decision_of_select _ _ _ _ _ _ _ _ Hr).
+Qed.
+
+(* send_live, as far as it holds: all proofs held at the mint are of the ACTIVE keyset.  What is
+   missing for the property's sufficiency clause is the case with proofs of inactive keysets, where
+   it is false (send_live_refuted above). *)
 Theorem send_live_partial : forall m active amount (inc : bool),
   wallet_in_range m active -> 0 <= amount < 2 ^ 62 ->
   let f := if inc then fees_for_count (popcount amount + 1) (m_active_fee m) else 0 in
@@ -1324,18 +1366,223 @@ Proof.
   assert (Hf : 0 <= f < 2 ^ 55).
   { unfold f. destruct inc; [unfold fees_for_count; apply ceil1000_range|lia]. }
   pose proof (fees_range m active) as Hfa.
-  change (2 ^ 62) with 4611686018427387904 in *.
-  change (2 ^ 63) with 9223372036854775808 in *. change (2 ^ 55) with 36028797018963968 in *.
-  destruct (select_for_amount_live_active m active amount inc Hnn Hlt ltac:(lia)) as [r Hr].
-  { destruct inc; lia. }
-  unfold get_proofs_decision, get_proofs_decision_gen.
-  unfold select_proofs_for_amount in Hr. rewrite Hr.
-  destruct (sum64 r =? add64 amount (fees_if m inc r)).
-  - left. eexists. reflexivity.
-  - right. split; [reflexivity|].
-    unfold swap_to_send_plan, swap_to_send_plan_gen.
-    unfold popcount in f. fold f.
+  assert (Hsel1 : exists r, select_proofs_for_amount m [] active amount inc = Ok r).
+  { apply select_for_amount_live_active; try assumption; [lia|].
+    change (2 ^ 55) with 36028797018963968 in *. destruct inc; lia. }
+  assert (Hsel2 : exists r, select_proofs_for_amount m [] active (add64 amount f) true = Ok r).
+  { change (2 ^ 62) with 4611686018427387904 in *.
+    change (2 ^ 63) with 9223372036854775808 in *. change (2 ^ 55) with 36028797018963968 in *.
     rewrite add64_small by (unfold W64; lia).
-    destruct (select_for_amount_live_active m active (amount + f) true Hnn Hlt ltac:(lia) ltac:(cbv beta iota; lia)) as [r2 Hr2].
-    unfold select_proofs_for_amount in Hr2. rewrite Hr2. eexists. reflexivity.
+    apply select_for_amount_live_active; try assumption; lia. }
+  clear Hf Hfa Hcov Hm Hnn Hlt Hfee Hamt.
+  destruct Hsel1 as [r Hr]. destruct Hsel2 as [r2 Hr2].
+  destruct (decision_of_select_inst _ _ _ _ _ Hr) as [Hd|Hd].
+  - left. exists r. exact Hd.
+  - right. split; [exact Hd|]. exact (swap_plan_of_select_inst _ _ _ _ _ Hr2).
+Qed.
+
+(* ------------------------------------------------------------------ *)
+(* The theorems of C18 for EVERY tie-break of Go's unstable sort.Slice: the two sorting
+   functions are arbitrary functions that return a permutation of their argument (that they
+   sort is not even needed for soundness, exactness and sufficiency).                        *)
+
+Section AnySort.
+  Variable srt_up srt_down : list proof -> list proof.
+  Hypothesis srt_up_perm : forall l, Permutation (srt_up l) l.
+  Hypothesis srt_down_perm : forall l, Permutation (srt_down l) l.
+
+  Theorem select_sound_any_sort : forall m inc amount ps sel,
+    select_proofs_to_send_gen srt_up srt_down m inc amount ps = Ok sel ->
+    (exists rest, Permutation (sel ++ rest) ps) /\
+    (NoDup (map p_uid ps) -> NoDup (map p_uid sel) /\ incl sel ps) /\
+    (nonneg ps -> sumA ps < 2 ^ 63 -> 0 <= amount ->
+     amount + (if inc then fees_for_proofs m sel else 0) <= sumA sel).
+  Proof.
+    intros m inc amount ps sel Hsel.
+    destruct (select_sound_gen _ _ srt_up_perm srt_down_perm m inc amount ps sel Hsel) as [HP Harith].
+    split; [exact HP|]. split; [|exact Harith].
+    apply (select_sound_uids _ _ srt_up_perm srt_down_perm m inc amount ps sel Hsel).
+  Qed.
+
+  Theorem select_live_any_sort : forall m ps amount (inc : bool),
+    nonneg ps -> sumA ps < 2 ^ 63 -> 0 <= amount ->
+    amount + (if inc then fees_for_proofs m ps else 0) <= sumA ps ->
+    exists sel, select_proofs_to_send_gen srt_up srt_down m inc amount ps = Ok sel.
+  Proof.
+    intros m ps amount inc Hnn Hlt Hamt Hcov.
+    apply select_live_gen; try assumption.
+    pose proof (fees_if_range m inc ps) as Hf. unfold fees_if in Hf. lia.
+  Qed.
+
+  (* selectProofsForAmount, hence every input list of a swap and every offline hand-out *)
+  Theorem select_for_amount_sound_any_sort : forall m inactive active amount inc r,
+    select_proofs_for_amount_gen srt_up srt_down m inactive active amount inc = Ok r ->
+    (exists rest, Permutation (r ++ rest) (inactive ++ active)) /\
+    (NoDup (map p_uid (inactive ++ active)) -> NoDup (map p_uid r)) /\
+    (wallet_in_range m (inactive ++ active) -> 0 <= amount < 2 ^ 63 ->
+     amount + (if inc then fees_for_proofs m r else 0) <= sumA r).
+  Proof.
+    intros m inactive active amount inc r Hr.
+    destruct (select_for_amount_sound_gen _ _ srt_up_perm srt_down_perm m _ _ _ _ _ Hr) as [[rest HP] Harith].
+    split; [exists rest; exact HP|]. split; [|exact Harith].
+    intros Hnd. pose proof (Permutation_map p_uid HP) as HPm. rewrite map_app in HPm.
+    apply Permutation_sym in HPm. pose proof (Permutation_NoDup HPm Hnd) as Hnd2.
+    apply NoDup_app_l in Hnd2. exact Hnd2.
+  Qed.
+
+  Theorem send_exact_nofee_any_sort : forall m inactive active amount,
+    wallet_in_range m (inactive ++ active) -> 0 <= amount < 2 ^ 62 ->
+    Z.of_nat (length (inactive ++ active)) < 2 ^ 63 ->
+    (forall sel, get_proofs_decision_gen srt_up srt_down m inactive active amount false = DOffline sel ->
+       (exists rest, Permutation (sel ++ rest) (inactive ++ active)) /\ sumA sel = amount) /\
+    (forall p, swap_to_send_plan_gen srt_up srt_down m inactive active amount false = Ok p ->
+       Permutation (sp_send p) (amount_split amount) /\ sumZ (sp_send p) = amount /\
+       (exists rest, Permutation (sp_inputs p ++ rest) (inactive ++ active)) /\
+       sumA (sp_inputs p) = amount + sp_change p + fees_for_proofs m (sp_inputs p) /\
+       sumZ (sp_change_split p) = sp_change p /\ 0 <= sp_change p).
+  Proof.
+    intros m inactive active amount Hrange Hamt Hlen. split.
+    - intros sel Hdec.
+      destruct (send_offline_exact_gen _ _ srt_up_perm srt_down_perm m _ _ _ _ _ Hdec) as [HP Hex].
+      split; [exact HP|]. rewrite Hex; [unfold fees_if; lia|exact Hrange|].
+      change (2 ^ 62) with 4611686018427387904 in Hamt. change (2 ^ 63) with 9223372036854775808. lia.
+    - intros p Hplan.
+      destruct (swap_plan_sound_gen _ _ srt_up_perm srt_down_perm m inactive active amount false p Hplan Hrange Hamt Hlen)
+        as (_ & Hperm & Hsum & Hin & Hfee & Hch & Hbal & Hsplit).
+      rewrite amount_split_zero, app_nil_r in Hperm. rewrite Z.add_0_r in Hsum.
+      split; [exact Hperm|]. split; [exact Hsum|]. split; [exact Hin|].
+      split; [rewrite Hbal, Hsum, Hfee; reflexivity|]. split; [exact Hsplit|exact Hch].
+  Qed.
+
+  (* offline hand-out with fees included: exact, for the proofs' own keysets *)
+  Theorem send_offline_exact_any_sort : forall m inactive active amount inc sel,
+    get_proofs_decision_gen srt_up srt_down m inactive active amount inc = DOffline sel ->
+    (exists rest, Permutation (sel ++ rest) (inactive ++ active)) /\
+    (wallet_in_range m (inactive ++ active) -> 0 <= amount < 2 ^ 63 ->
+     sumA sel = amount + (if inc then fees_for_proofs m sel else 0)).
+  Proof.
+    intros m inactive active amount inc sel Hdec.
+    exact (send_offline_exact_gen _ _ srt_up_perm srt_down_perm m inactive active amount inc sel Hdec).
+  Qed.
+
+  Theorem send_exact_fee_partial_any_sort : forall m inactive active amount p,
+    wallet_in_range m (inactive ++ active) -> 0 <= amount < 2 ^ 62 ->
+    Z.of_nat (length (inactive ++ active)) < 2 ^ 63 ->
+    swap_to_send_plan_gen srt_up srt_down m inactive active amount true = Ok p ->
+    let ppk := m_active_fee m in
+    let n := Z.of_nat (length (amount_split amount)) in
+    let f := fees_for_count (n + 1) ppk in
+    sumZ (sp_send p) = amount + f /\
+    Z.of_nat (length (sp_send p)) = n + popcount f /\
+    mint_fee_for_sent m (sp_send p) = fees_for_count (n + popcount f) ppk /\
+    (sumZ (sp_send p) - mint_fee_for_sent m (sp_send p) = amount <->
+     fees_for_count (n + popcount f) ppk = f).
+  Proof.
+    intros m inactive active amount p Hrange Hamt Hlen Hplan ppk n f.
+    destruct (swap_plan_sound_gen _ _ srt_up_perm srt_down_perm m inactive active amount true p Hplan Hrange Hamt Hlen)
+      as (_ & Hperm & Hsum & _).
+    fold n in Hperm, Hsum. fold ppk in Hperm, Hsum. fold f in Hperm, Hsum.
+    assert (Hcount : Z.of_nat (length (sp_send p)) = n + popcount f).
+    { rewrite (Permutation_length Hperm), app_length, Nat2Z.inj_add. unfold popcount, n. lia. }
+    assert (Hmint : mint_fee_for_sent m (sp_send p) = fees_for_count (n + popcount f) ppk).
+    { unfold mint_fee_for_sent. rewrite Hcount. reflexivity. }
+    split; [exact Hsum|]. split; [exact Hcount|]. split; [exact Hmint|].
+    rewrite Hmint, Hsum. lia.
+  Qed.
+
+  (* what stays in the wallet: the proofs not selected plus the change; the spendable balance drops
+     by exactly what was handed out (plus, through a swap, the input fee of the proofs swapped) *)
+  Theorem send_removed_from_balance_any_sort : forall m inactive active amount inc,
+    wallet_in_range m (inactive ++ active) -> 0 <= amount < 2 ^ 62 ->
+    Z.of_nat (length (inactive ++ active)) < 2 ^ 63 ->
+    (forall sel, get_proofs_decision_gen srt_up srt_down m inactive active amount inc = DOffline sel ->
+       exists rest, Permutation (sel ++ rest) (inactive ++ active) /\
+                    sumA rest = sumA (inactive ++ active) - sumA sel) /\
+    (forall p, swap_to_send_plan_gen srt_up srt_down m inactive active amount inc = Ok p ->
+       exists rest, Permutation (sp_inputs p ++ rest) (inactive ++ active) /\
+                    sumA rest + sumZ (sp_change_split p) =
+                    sumA (inactive ++ active) - sumZ (sp_send p) - sp_input_fee p).
+  Proof.
+    intros m inactive active amount inc Hrange Hamt Hlen. split.
+    - intros sel Hdec.
+      destruct (send_offline_exact_gen _ _ srt_up_perm srt_down_perm m _ _ _ _ _ Hdec) as [[rest HP] _].
+      exists rest. split; [exact HP|]. rewrite <- (sumA_perm _ _ HP), sumA_app. lia.
+    - intros p Hplan.
+      destruct (swap_plan_sound_gen _ _ srt_up_perm srt_down_perm m inactive active amount inc p Hplan Hrange Hamt Hlen)
+        as (_ & _ & _ & [rest HP] & _ & _ & Hbal & Hsplit).
+      exists rest. split; [exact HP|]. rewrite <- (sumA_perm _ _ HP), sumA_app, Hsplit. lia.
+  Qed.
+
+  (* sufficiency, as far as it holds: no proofs of inactive keysets at the mint *)
+  Lemma select_for_amount_live_active_any_sort : forall m active a (inc : bool),
+    nonneg active -> sumA active < 2 ^ 63 -> 0 <= a ->
+    a + (if inc then fees_for_proofs m active else 0) <= sumA active ->
+    exists r, select_proofs_for_amount_gen srt_up srt_down m [] active a inc = Ok r.
+  Proof.
+    intros m active a inc Hnn Hlt Ha Hcov.
+    rewrite select_for_amount_unfold. unfold continue_with.
+    pose proof (fees_if_range m inc active) as Hf. unfold fees_if in Hf.
+    change (2 ^ 63) with 9223372036854775808 in *. change (2 ^ 55) with 36028797018963968 in *.
+    change (sum64 []) with 0.
+    rewrite add64_small by (unfold W64; lia). rewrite Z.add_0_r.
+    destruct (a <=? 0); [eexists; reflexivity|].
+    rewrite sub64_small by (unfold W64; lia). rewrite Z.sub_0_r.
+    destruct (select_live_any_sort m active a inc Hnn Hlt Ha Hcov) as [sel Hsel].
+    rewrite Hsel. eexists. reflexivity.
+  Qed.
+
+  Theorem send_live_partial_any_sort : forall m active amount (inc : bool),
+    wallet_in_range m active -> 0 <= amount < 2 ^ 62 ->
+    let f := if inc then fees_for_count (popcount amount + 1) (m_active_fee m) else 0 in
+    amount + f + fees_for_proofs m active <= sumA active ->
+    (exists sel, get_proofs_decision_gen srt_up srt_down m [] active amount inc = DOffline sel) \/
+    (get_proofs_decision_gen srt_up srt_down m [] active amount inc = DSwap /\
+     exists p, swap_to_send_plan_gen srt_up srt_down m [] active amount inc = Ok p).
+  Proof.
+    intros m active amount inc (Hm & Hnn & Hlt & Hfee) Hamt f Hcov.
+    assert (Hf : 0 <= f < 2 ^ 55).
+    { unfold f. destruct inc; [unfold fees_for_count; apply ceil1000_range|lia]. }
+    pose proof (fees_range m active) as Hfa.
+    assert (Hsel1 : exists r, select_proofs_for_amount_gen srt_up srt_down m [] active amount inc = Ok r).
+    { apply select_for_amount_live_active_any_sort; try assumption; [lia|].
+      change (2 ^ 55) with 36028797018963968 in *. destruct inc; lia. }
+    assert (Hsel2 : exists r, select_proofs_for_amount_gen srt_up srt_down m [] active (add64 amount f) true = Ok r).
+    { change (2 ^ 62) with 4611686018427387904 in *.
+      change (2 ^ 63) with 9223372036854775808 in *. change (2 ^ 55) with 36028797018963968 in *.
+      rewrite add64_small by (unfold W64; lia).
+      apply select_for_amount_live_active_any_sort; try assumption; lia. }
+    clear Hf Hfa Hcov Hm Hnn Hlt Hfee Hamt.
+    destruct Hsel1 as [r Hr]. destruct Hsel2 as [r2 Hr2].
+    destruct (decision_of_select _ _ _ _ _ _ _ _ Hr) as [Hd|Hd].
+    - left. exists r. exact Hd.
+    - right. split; [exact Hd|]. unfold f in Hr2. rewrite popcount_eq in Hr2.
+      exact (swap_plan_of_select _ _ _ _ _ _ _ _ Hr2).
+  Qed.
+End AnySort.
+
+(* a second way the sufficiency clause fails with proofs of inactive keysets: the fee is rounded up
+   once for the inactive part and once more for the active part.  Balance 15, the fee of spending
+   all 8 proofs is 1, the fee of the 4 proofs sent is 1: a send of 13 <= 15 - 1 - 1 is refused. *)
+Theorem send_live_refuted_rounding :
+  exists m inactive active amount,
+    wallet_in_range m (inactive ++ active) /\
+    amount + fees_for_proofs m (inactive ++ active) + fees_for_count (popcount amount + 1) (m_active_fee m)
+      <= sumA (inactive ++ active) /\
+    get_proofs_decision m inactive active amount true = DSwap /\
+    swap_to_send_plan m inactive active amount true = Err 2.
+Proof.
+  exists (mkMint 100 [(1, 100); (2, 100)]), [mkProof 1 1 0; mkProof 1 2 1],
+    [mkProof 4 0 2; mkProof 4 0 3; mkProof 1 0 4; mkProof 2 0 5; mkProof 1 0 6; mkProof 1 0 7], 13.
+  split; [apply wallet_in_range_intro; vm_compute; reflexivity|].
+  split; [vm_compute; discriminate|]. split; vm_compute; reflexivity.
+Qed.
+
+(* the model's sorts are sorting permutations: one admissible tie-break *)
+Theorem model_sorts_admissible :
+  (forall l, Permutation (sort_up l) l) /\ (forall l, Permutation (sort_down l) l) /\
+  (forall l, StronglySorted (fun a b => p_amount a <= p_amount b) (sort_up l)) /\
+  (forall l, StronglySorted (fun a b => p_amount b <= p_amount a) (sort_down l)).
+Proof.
+  split; [exact sort_up_perm|]. split; [exact sort_down_perm|].
+  split; [exact sort_up_sorted|exact sort_down_sorted].
 Qed.
